@@ -18,6 +18,4 @@
 #define ACC_LIT(a, id) UF(acc_lit)((a), (id))
 /* the seed string of the verifiable generator derivation: "LibTMCG|" p "|" q "|ggen|" */
 #define GGEN_SEED ACC_LIT(ACC_MPZ(ACC_LIT(ACC_MPZ(ACC_LIT(0, LIT_LibTMCG), P), LIT_bar), Q), LIT_ggen)
-/* the word-level side condition "machine arithmetic treated as mathematical" for the spec terms */
-#define WORD_OK(x) ((x) > -0x7ffffffffffffff0L && (x) < 0x7ffffffffffffff0L)
 #endif
